@@ -51,6 +51,18 @@ trait ReadLittleEndian: Read {
 
 impl<R: Read> ReadLittleEndian for R {}
 
+/// Capacity to reserve for `count` records of `record_size` bytes about to be read
+/// from the current position. The counts come from the file, so the reservation is
+/// bounded by the number of records the rest of the stream can hold.
+fn bounded_capacity<R: Seek>(reader: &mut R, count: u32, record_size: u64) -> Result<usize> {
+    let pos = reader.stream_position()?;
+    let end = reader.seek(SeekFrom::End(0))?;
+    reader.seek(SeekFrom::Start(pos))?;
+
+    let available = end.saturating_sub(pos) / record_size;
+    Ok(u64::from(count).min(available) as usize)
+}
+
 /// WMO chunk identifiers
 pub mod chunks {
     use crate::types::ChunkId;
@@ -360,9 +372,10 @@ impl WmoParser {
         };
 
         momt_chunk.seek_to_data(reader)?;
-        let mut materials = Vec::with_capacity(n_materials as usize);
-
         const MATERIAL_SIZE: usize = 64;
+
+        let mut materials =
+            Vec::with_capacity(bounded_capacity(reader, n_materials, MATERIAL_SIZE as u64)?);
 
         for _ in 0..n_materials {
             let flags = WmoMaterialFlags::from_bits_truncate(reader.read_u32_le()?);
@@ -444,7 +457,8 @@ impl WmoParser {
         };
 
         mogi_chunk.seek_to_data(reader)?;
-        let mut groups = Vec::with_capacity(n_groups as usize);
+        // Each group info entry is 32 bytes
+        let mut groups = Vec::with_capacity(bounded_capacity(reader, n_groups, 32)?);
 
         for i in 0..n_groups {
             let flags = WmoGroupFlags::from_bits_truncate(reader.read_u32_le()?);
@@ -543,7 +557,8 @@ impl WmoParser {
         };
 
         mopt_chunk.seek_to_data(reader)?;
-        let mut portals = Vec::with_capacity(n_portals as usize);
+        // Each portal entry is 20 bytes
+        let mut portals = Vec::with_capacity(bounded_capacity(reader, n_portals, 20)?);
 
         for _ in 0..n_portals {
             let vertex_index = reader.read_u16_le()? as usize;
@@ -689,7 +704,8 @@ impl WmoParser {
         };
 
         molt_chunk.seek_to_data(reader)?;
-        let mut lights = Vec::with_capacity(n_lights as usize);
+        // Each light entry is 48 bytes
+        let mut lights = Vec::with_capacity(bounded_capacity(reader, n_lights, 48)?);
 
         for _ in 0..n_lights {
             let light_type_raw = reader.read_u8()?;
@@ -811,7 +827,7 @@ impl WmoParser {
             );
         }
 
-        let mut doodads = Vec::with_capacity(actual_doodad_count as usize);
+        let mut doodads = Vec::with_capacity(bounded_capacity(reader, actual_doodad_count, 40)?);
 
         for _ in 0..actual_doodad_count {
             let name_index_raw = reader.read_u32_le()?;
@@ -872,7 +888,8 @@ impl WmoParser {
         };
 
         mods_chunk.seek_to_data(reader)?;
-        let mut sets = Vec::with_capacity(n_doodad_sets as usize);
+        // Each doodad set entry is 32 bytes
+        let mut sets = Vec::with_capacity(bounded_capacity(reader, n_doodad_sets, 32)?);
 
         for _i in 0..n_doodad_sets {
             // Read 20 bytes for the set name (including null terminator)
